@@ -68,6 +68,21 @@ def generate(rng, tier, focus):
                 p = scen.rand_chain(rng, p, 1)
             acts = [sub(0, p, (i, ["push", 0, n(rng.choice([5, 6]))]))] + [["push", 0, n(rng.choice([1, 2, 3]))] for _ in range(rng.randrange(1, 4))] + [["push", 0, C]]
             cases.append((scn(handles=1, script_=acts), {"k": "feedback-" + nm}))
+    # an unbounded synchronous producer shared through ref_count / replay below an operator whose subscription has already ended when it
+    # gets to subscribe it: the producer must not be started (nobody could ever stop it)
+    for _ in range(20 if thorough else 6):
+        for ck in ["refcount", "replay"]:
+            v = rng.choice([1, 2])
+            shapes = [["op", "take_until", [], ["conn", 0], ["just", 1]],
+                      ["op", "merge", [], ["error", 3], ["conn", 0]],
+                      ["op", "zip", [], ["error", 3], ["conn", 0]]]
+            if ck == "refcount":
+                # (under replay() an endless synchronous source never lets the subscriber reach its replay: connect does not return, by design)
+                shapes += [["op", "take", [rng.choice([1, 2])], ["conn", 0]], ["op", "amb", [], ["just", 5], ["conn", 0]]]
+            for p in shapes:
+                if rng.random() < 0.3:
+                    p = scen.rand_chain(rng, p, 1, names=["map", "filter", "take", "skip"])
+                cases.append((scn(conns=[[ck, ["repeat", v]]], handles=1, script_=[sub(0, p)]), {"k": "shared-unbounded"}))
     # connectables over a hot source
     for _ in range(60 if thorough else 12):
         for ck in ["publish", "refcount", "replay"]:
